@@ -5,6 +5,7 @@ import HpxVerif.Props.C16
 import HpxVerif.Lemmas.EConeReal4
 import HpxVerif.Lemmas.EConeEq3
 import HpxVerif.Lemmas.Tightness3
+import HpxVerif.Lemmas.EConeBmoc3
 
 set_option autoImplicit false   -- an unknown identifier in a statement is an error, never a new variable
 
@@ -536,5 +537,94 @@ theorem elliptical_cone_coverage_tight (cfg : Cfg) (depth : ℕ) (lon lat a b pa
 
 
 end Tightness
+
+
+/-! ## on the RETURNED BMOC of `elliptical_cone_coverage(_custom)` (equatorial ellipses, both profiles, pack and to_lower_depth included)
+
+`ellipticalConeCoverage` is the `custom` function with `delta_depth = 0`.  Full-inside is a disjunction: a position of a
+full entry is inside the disc, or it lies in a deepest-depth cell under the entry that was flagged full by the
+four-vertices rule (for such a cell only its four vertices are shown inside). -/
+
+section OnTheReturnedBmoc
+open Hpx Hpx.Hash Hpx.C2V Hpx.C2VReal Hpx.Proj Hpx.Cover Hpx.CellReal Hpx.EnvelopeReal Hpx.TopoLift Hpx.CellExtent Hpx.Bmoc Hpx.Sph Hpx.Tightness Hpx.EConeEq Hpx.ConeBmoc Hpx.EConeBmoc Real
+
+/-- **`elliptical_cone_coverage_circular_no_miss_equatorial`** (ℝ, both profiles, every `depth ≤ 29`).  Circular elliptical
+    cone `a = b`, any position angle, `0 < a`, `|lat| + a < tl`, `sin a > 2^-1024`; `m` the BMOC returned by
+    `elliptical_cone_coverage(depth, lon, lat, a, a, pa)`.  For every start cell `root` of depth
+    `ds = best_starting_depth(a) ≤ depth` (`IsStartCell`: the cell of the centre at depth `ds` or one of its neighbours) and
+    every position `q` within `a` of `(lon, lat)` that lies in `root`, a strictly equatorial cell, there is an ENTRY of `m`
+    whose cell contains `q` — a cell emitted by the descent or a parent created by the compaction. -/
+theorem elliptical_cone_coverage_circular_no_miss_equatorial (cfg : Cfg) (depth : ℕ) (lon lat a pa : ℝ) (ha : 0 < a)
+    (hA : |lat| + a < tl) (hmin : 1 / 2 ^ 1024 < sin a) (m : BMOC)
+    (h : ellipticalConeCoverage (α := ℝ) cfg depth lon lat a a pa = some m)
+    (ds root : ℕ) (hst : IsStartCell cfg lon lat a ds root) (hds : ds ≤ depth) (q : ℝ × ℝ)
+    (hq : InCellEq ds root q) (hin : adist q (lon, lat) ≤ a) :
+    ∃ e ∈ m.entries, InCellEq (decode e depth).depth (decode e depth).hash q :=
+  Hpx.EConeBmoc.elliptical_cone_coverage_circular_no_miss_equatorial cfg depth lon lat a pa ha hA hmin m h ds root hst hds q hq hin
+
+/-- **`elliptical_cone_coverage_circular_full_inside_equatorial`** (ℝ, both profiles, every `depth ≤ 29`, `a = b`,
+    `|lat| + a < tl`).  Let `e` be an entry of the returned BMOC flagged FULL — a cell flagged by the descent or a parent
+    created by the compaction of four full cells, at any number of levels — and `q` a position of its cell (`InCellEq`).
+    Then EITHER `q` is within `a` of `(lon, lat)`, OR `q` is a position of a cell `x` of the deepest depth `depth` lying under
+    the entry (`x / 4^(depth − d_e) = h_e`) whose four VERTICES are within `a` of `(lon, lat)` — the rule by which
+    `elliptical_cone_coverage_internal` flags full the cells of the deepest depth (the whole of such a cell is not proved to
+    be inside). -/
+theorem elliptical_cone_coverage_circular_full_inside_equatorial (cfg : Cfg) (depth : ℕ) (lon lat a pa : ℝ) (ha : 0 < a)
+    (hA : |lat| + a < tl) (m : BMOC) (h : ellipticalConeCoverage (α := ℝ) cfg depth lon lat a a pa = some m)
+    (e : ℕ) (he : e ∈ m.entries) (hf : (decode e depth).full = true) (q : ℝ × ℝ)
+    (hq : InCellEq (decode e depth).depth (decode e depth).hash q) :
+    adist q (lon, lat) ≤ a ∨
+    ∃ x, x / 4 ^ (depth - (decode e depth).depth) = (decode e depth).hash ∧ InCellEq depth x q ∧
+      ∃ vs, Hash.vertices (α := ℝ) cfg depth x = some vs ∧ ∀ v ∈ vs, adist v (lon, lat) ≤ a :=
+  Hpx.EConeBmoc.elliptical_cone_coverage_circular_full_inside_equatorial cfg depth lon lat a pa ha hA m h e he hf q hq
+
+/-- **`elliptical_cone_coverage_centre_cell_kept_equatorial`** (ℝ, both profiles, every `depth ≤ 29`).  General ellipse
+    `0 < b ≤ a`, any position angle, `|lat| + a < tl`, `sin b > 2^-1024`.  If the centre `(lon, lat)` is a position of a
+    strictly equatorial start cell `root` of depth `ds = best_starting_depth(a) ≤ depth`, then `(lon, lat)` is a position of
+    the cell of an ENTRY of the returned BMOC. -/
+theorem elliptical_cone_coverage_centre_cell_kept_equatorial (cfg : Cfg) (depth : ℕ) (lon lat a b pa : ℝ) (hb : 0 < b)
+    (hba : b ≤ a) (hA : |lat| + a < tl) (hmin : 1 / 2 ^ 1024 < sin b) (m : BMOC)
+    (h : ellipticalConeCoverage (α := ℝ) cfg depth lon lat a b pa = some m)
+    (ds root : ℕ) (hst : IsStartCell cfg lon lat a ds root) (hds : ds ≤ depth) (hq : InCellEq ds root (lon, lat)) :
+    ∃ e ∈ m.entries, InCellEq (decode e depth).depth (decode e depth).hash (lon, lat) :=
+  Hpx.EConeBmoc.elliptical_cone_coverage_centre_cell_kept_equatorial cfg depth lon lat a b pa hb hba hA hmin m h ds root hst hds hq
+
+/-- **no-miss for `elliptical_cone_coverage_custom`, `delta_depth ≠ 0`, circular ellipse** (ℝ, both profiles).  The descent
+    is run at `deep = depth + delta_depth ≤ 29`, compacted, then degraded to `depth`.  For every strictly equatorial start
+    cell `root` (of the descent at `deep`; any start depth `ds`) and every position `q` of the disc in it, some ENTRY of the
+    returned BMOC contains `q` in the plane sense — in the sense of `InCellEq` when the entry is strictly equatorial, or
+    flagged full (`ds ≤ deep`) — and covers the cell number `x` of `q` at depth `deep`. -/
+theorem elliptical_cone_coverage_custom_circular_no_miss_equatorial (cfg : Cfg) (depth deltaDepth : ℕ)
+    (hdd : deltaDepth ≠ 0) (lon lat a pa : ℝ) (ha : 0 < a) (hA : |lat| + a < tl) (hmin : 1 / 2 ^ 1024 < sin a)
+    (m : BMOC) (h : ellipticalConeCoverageCustom (α := ℝ) cfg depth deltaDepth lon lat a a pa = some m)
+    (ds root : ℕ) (hst : IsStartCell cfg lon lat a ds root) (q : ℝ × ℝ)
+    (hq : InCellEq ds root q) (hin : adist q (lon, lat) ≤ a) :
+    ∃ e ∈ m.entries, InCellPlane (decode e depth).depth (decode e depth).hash q ∧
+      (|pcy (decode e depth).depth (decode e depth).hash| < 1 →
+        InCellEq (decode e depth).depth (decode e depth).hash q) ∧
+      (ds ≤ depth + deltaDepth → (decode e depth).full = true →
+        InCellEq (decode e depth).depth (decode e depth).hash q) ∧
+      ∃ x, InCellPlane (depth + deltaDepth) x q ∧ (ds ≤ depth + deltaDepth → InCellEq (depth + deltaDepth) x q) ∧
+        x / 4 ^ (depth + deltaDepth - (decode e depth).depth) = (decode e depth).hash :=
+  Hpx.EConeBmoc.elliptical_cone_coverage_custom_circular_no_miss_equatorial cfg depth deltaDepth hdd lon lat a pa ha hA hmin m h ds root hst q hq hin
+
+/-- **the cell of the centre is kept by `elliptical_cone_coverage_custom`, `delta_depth ≠ 0`** (general ellipse
+    `0 < b ≤ a`, `|lat| + a < tl`, `sin b > 2^-1024`): if the centre `(lon, lat)` is a position of a strictly equatorial start
+    cell `root` (any start depth), some ENTRY of the returned BMOC contains it in the plane sense — in the sense of
+    `InCellEq` when the entry is strictly equatorial, or flagged full (`ds ≤ deep`) -/
+theorem elliptical_cone_coverage_custom_centre_cell_kept_equatorial (cfg : Cfg) (depth deltaDepth : ℕ)
+    (hdd : deltaDepth ≠ 0) (lon lat a b pa : ℝ) (hb : 0 < b) (hba : b ≤ a) (hA : |lat| + a < tl)
+    (hmin : 1 / 2 ^ 1024 < sin b) (m : BMOC)
+    (h : ellipticalConeCoverageCustom (α := ℝ) cfg depth deltaDepth lon lat a b pa = some m)
+    (ds root : ℕ) (hst : IsStartCell cfg lon lat a ds root) (hq : InCellEq ds root (lon, lat)) :
+    ∃ e ∈ m.entries, InCellPlane (decode e depth).depth (decode e depth).hash (lon, lat) ∧
+      (|pcy (decode e depth).depth (decode e depth).hash| < 1 →
+        InCellEq (decode e depth).depth (decode e depth).hash (lon, lat)) ∧
+      (ds ≤ depth + deltaDepth → (decode e depth).full = true →
+        InCellEq (decode e depth).depth (decode e depth).hash (lon, lat)) :=
+  Hpx.EConeBmoc.elliptical_cone_coverage_custom_centre_cell_kept_equatorial cfg depth deltaDepth hdd lon lat a b pa hb hba hA hmin m h ds root hst hq
+
+
+end OnTheReturnedBmoc
 
 end Hpx.C13
